@@ -510,6 +510,34 @@ def rule_perm_partition(ctx) -> None:
               f"head = items[:{hi}] but tail = items[{lo}:]: the reranked list drops or duplicates the items between the two bounds")
 
 
+def rule_ts_parsers(ctx) -> None:
+    """the recency window (index._parse_iso) and the recency term of the combined score (t2.helpers.parse_iso) read the same
+    timestamps: both parsers must turn an offset-bearing ISO string into the same instant - fromisoformat(...) converted with
+    .astimezone(utc); a parser that stamps tzinfo with .replace(tzinfo=...) discards the offset and the two sites disagree"""
+    sigs = {}
+    for q in (IDX + ":_parse_iso", "clematis.engine.stages.t2.helpers:parse_iso"):
+        f = ctx.func(q)
+        ops = set()
+        for x in walk_no_defs(f.node):
+            if isinstance(x, ast.Call) and isinstance(x.func, ast.Attribute):
+                if x.func.attr == "fromisoformat":
+                    ops.add("fromisoformat")
+                if x.func.attr == "astimezone":
+                    ops.add("astimezone")
+                if x.func.attr == "replace" and any(k.arg == "tzinfo" for k in x.keywords):
+                    ops.add("replace-tzinfo")
+                if x.func.attr == "replace" and x.args and const_str(x.args[0]) == "Z":
+                    ops.add("Z->+00:00")
+        sigs[q] = ops
+        ctx.check("fromisoformat" in ops and "astimezone" in ops and "replace-tzinfo" not in ops, "C11.RANK", f"{q}/offset-aware-utc", f.loc(),
+                  "timestamps are parsed with fromisoformat and converted to UTC with astimezone (offsets honoured)",
+                  f"`{f.name}` normalises timestamps with {sorted(ops)}: an explicit UTC offset is " + ("overwritten by .replace(tzinfo=...)" if "replace-tzinfo" in ops else "not converted") +
+                  ", so the recency term ages an episode by up to 14 h differently from the recency window and the documented combined-score order is lost")
+    vals = list(sigs.values())
+    ctx.check(all(v == vals[0] for v in vals), "C11.RANK", "timestamp-parsers/agree", "clematis/memory/index.py", f"both timestamp parsers normalise with {sorted(vals[0])}",
+              f"the two timestamp parsers normalise differently: { {k.split(':')[1]: sorted(v) for k, v in sigs.items()} }")
+
+
 def rule_res(ctx) -> None:
     t2 = ctx.func(T2)
     cfg = ctx.cfg(t2)
@@ -552,4 +580,5 @@ def run(ctx) -> None:
     rule_rank(ctx)
     rule_perm(ctx)
     rule_perm_partition(ctx)
+    rule_ts_parsers(ctx)
     rule_res(ctx)
